@@ -181,6 +181,10 @@ def c19b_intermediate(F, R):
         for n in walk(F.fn(sp)["hir"]["value"]):
             if n.get("k") == "MethodCall" and n["name"] == "serialize":
                 w = _shape(n["recv"].get("ty", ""))
+            elif n.get("k") == "MethodCall" and n["name"] in ("collect_seq", "serialize_seq"):
+                w = "seq"
+            elif n.get("k") == "MethodCall" and n["name"] in ("collect_map", "serialize_map"):
+                w = "map"
         r = None
         for n in walk(F.fn(dp)["hir"]["value"]):
             if n.get("k") == "Call" and short(declared_callee(n) or "") == "deserialize":
